@@ -123,6 +123,11 @@ func par1Cycle(r *Run, hostile bool) {
 		}
 		r.Probe("relative-paths")
 	}
+	if len(w.Files)+3 <= 256 && t.Bool(1, 25, "library-defaults") {
+		w.R = 3
+		w.UseDefaults = true
+		r.Probe("library-defaults")
+	}
 	cre := r.Create1(w, index, paths, nil)
 	r.noPanic(cre)
 	if cre.Err != nil {
